@@ -194,3 +194,10 @@ def h4(ctx: Ctx) -> None:
     from .c08 import r2 as refresh_rule
 
     refresh_rule(ctx)
+
+
+@rule("C16.H5", "mechanism shared with C13: every hook the rule declares (one per target market) is entered in the table", "T3 + T6 (same rule as C13.R4)", floor=3)
+def h5(ctx: Ctx) -> None:
+    from .c13 import check_registration
+
+    check_registration(ctx)
